@@ -29,6 +29,8 @@ DRIVER = os.path.join(LEAN, ".lake", "build", "bin", "driver")
 # its evidence and replay files apart so that it never overwrites what the registered commands wrote
 ALT_TREE = os.path.realpath(REPO) != "/repo"
 EVIDENCE_DIR = os.path.join(VERIF, "evidence") if not ALT_TREE else os.path.join("/tmp", "verif-alt-tree", "evidence")
+if os.environ.get("VERIF_SCRATCH_EVIDENCE"):       # development runs against a deliberately broken tree (tools/try_mutant.sh)
+    EVIDENCE_DIR = os.path.join("/tmp", "verif-alt-tree", "evidence")
 REPLAY_DIR = os.path.join(VERIF, "replays")
 FINDINGS_FILE = os.path.join(VERIF, "known_findings.json")
 
